@@ -36,7 +36,7 @@ func New(prop string, seed uint64, tier string) *Result {
 	return &Result{Property: prop, Seed: seed, Tier: tier, Histogram: map[string]int{}, seen: map[string]bool{}}
 }
 
-func (r *Result) Count(k string) { r.Histogram[k]++ }
+func (r *Result) Count(k string)         { r.Histogram[k]++ }
 func (r *Result) CountN(k string, n int) { r.Histogram[k] += n }
 
 // Case registers one evaluated case by its canonical text; nontrivial per the driver's rule.
